@@ -6,3 +6,4 @@ pub mod rng;
 pub mod c02;
 pub mod c14;
 pub mod c15;
+pub mod c18;
